@@ -1009,7 +1009,93 @@ def module_term(prog: Program, mod: Module, name: str) -> tuple:
     """Term of a module-level assignment's value."""
     if name not in mod.assigns:
         raise AnalysisError(f"anchor {mod.name}.{name} not found")
-    return Evaluator(prog, mod).expr(mod.assigns[name], {})
+    return expand_table(prog, Evaluator(prog, mod).expr(mod.assigns[name], {}))
+
+
+def _resolve_display(prog: Program, tm, depth=0):
+    """A reference to a module constant of the package -> its (expanded) value term."""
+    if tm[0] == "ref" and depth < 4:
+        modname, _, nm = tm[1].rpartition(".")
+        m = prog.modules.get(modname)
+        if m is not None and nm in m.assigns:
+            return expand_table(prog, Evaluator(prog, m).expr(m.assigns[nm], {}), depth + 1)
+    return tm
+
+
+def expand_table(prog: Program, tm, depth=0):
+    """A comprehension that *builds a table from constant tables* (displays, `.items()` of a dict display, tuples of
+    modules) is the display it builds: the generators are unrolled, getattr/hasattr on stdlib modules with constant
+    names are answered from the stdlib, and conditions must fold to constants.  Anything else is returned as it is."""
+    from . import oracle
+
+    if tm[0] != "comp" or tm[1] not in ("dict", "list", "set", "tuple") or depth > 4:
+        return tm
+
+    def fold(x):
+        def f(y):
+            if T.is_call_to(y, "builtins.getattr", "builtins.hasattr") and len(y[2]) >= 2 and y[2][0][0] == "ref" and y[2][1][0] == "const" and isinstance(y[2][1][1], str):
+                dotted = f"{y[2][0][1]}.{y[2][1][1]}"
+                try:
+                    oracle.stdlib_class(dotted)
+                    has = True
+                except LookupError as e:
+                    if "catalogue" in str(e):
+                        return None
+                    has = False
+                except Exception:
+                    has = False
+                if T.refname(y[1]) == "builtins.hasattr":
+                    return ("const", has)
+                if has:
+                    return ("ref", dotted)
+                if len(y[2]) == 3:
+                    return y[2][2]
+            return None
+
+        return T.fold_bool(T.fold_consts(T.rewrite(x, f)))
+
+    envs = [{}]
+    for src, _names in tm[3]:
+        nxt = []
+        for env in envs:
+            s0 = T.rewrite(src, lambda y, env=env: env.get(y))
+            items = None
+            if s0[0] in ("tuple", "list", "set"):
+                items = [{("elem", src): it} for it in s0[1]]
+            elif s0[0] == "call" and s0[1][0] == "attr" and s0[1][2] in ("items", "keys", "values") and not s0[2]:
+                d = _resolve_display(prog, s0[1][1], depth)
+                if d[0] == "dict" and all(len(kv) == 2 for kv in d[1]):
+                    base = s0[1][1]
+                    items = [{("key", base): k, ("value", base): v, ("elem", src): ("tuple", (k, v)) if s0[1][2] == "items" else (k if s0[1][2] == "keys" else v)} for k, v in d[1]]
+            else:
+                d = _resolve_display(prog, s0, depth)
+                if d[0] in ("tuple", "list", "set"):
+                    items = [{("elem", src): it} for it in d[1]]
+                elif d[0] == "dict":
+                    items = [{("elem", src): k, ("key", s0): k} for k, _v in d[1]]
+            if items is None:
+                return tm
+            nxt += [{**env, **it} for it in items]
+        envs = nxt
+        if len(envs) > 4096:
+            return tm
+    out = []
+    for env in envs:
+        keep = True
+        for c in tm[4]:
+            v = fold(T.rewrite(c, lambda y, env=env: env.get(y)))
+            if v[0] != "const":
+                return tm
+            if not v[1]:
+                keep = False
+                break
+        if keep:
+            out.append(fold(T.rewrite(tm[2], lambda y, env=env: env.get(y))))
+    if tm[1] == "dict":
+        if not all(i[0] == "pair" for i in out):
+            return tm
+        return ("dict", tuple((i[1], i[2]) for i in out))
+    return (tm[1], tuple(out))
 
 
 def handler_names(event) -> list[str] | None:
